@@ -523,6 +523,8 @@ def _isinstance(it, v, t):
     elif isinstance(t, External):
         name = t.dotted
     elif isinstance(t, ClassRef):
+        if isinstance(v, EnumVal):
+            return v.cls == t.name
         if not isinstance(v, SymObj):
             return False
         from . import source
